@@ -862,7 +862,7 @@ class Fxp():
 
             # integer inputs are scaled exactly: python integers are used when the scaled values do not fit in 64 bits
             if val.dtype.kind in 'iu' and isinstance(conv_factor, int) and conv_factor > 1:
-                _scaled_overflow = int(np.max(val)) * conv_factor >= 2**63 or int(np.min(val)) * conv_factor < -2**63
+                _scaled_overflow = conv_factor >= 2**63 or int(np.max(val)) * conv_factor >= 2**63 or int(np.min(val)) * conv_factor < -2**63
             else:
                 _scaled_overflow = False
 
